@@ -248,6 +248,7 @@ def check_case(case):
         for A, m in zip(G, masks):
             if (~m).any():
                 A[~m] = A[~m][:, ::-1] * 9.0 + 2.0
+                A[np.ix_(np.flatnonzero(~m)[::2], np.arange(0, A.shape[1], 3))] = 0.0      # dead samples (amplitude 0 is a valid input)
                 any_rej = True
         tw = build(G, azs)
         for t, m in zip(tw.hvsrs, masks):
